@@ -81,6 +81,8 @@ def _call_pred(interp, pred, env, assumed=False, proving=None):
     missing = [p for p in params if p not in env]
     if missing:
         raise Unsupported('loop/contract predicate asks for unknown name(s) %s' % missing)
+    if assumed == 'aligned':
+        return interp.call_assumed_aligned(pred, [env[p] for p in params], {})
     if assumed:
         return interp.call_assumed(pred, [env[p] for p in params], {})
     if proving is not None:
@@ -296,6 +298,8 @@ class LoopGuard:
         if i not in self.pre:
             return
         if (i, '*') in self.allowed or (attr is not None and (i, attr) in self.allowed):
+            return
+        if attr is None and any(a == i for (a, _) in self.allowed):
             return
         raise Unsupported('%s: the body writes %s of a pre-existing %s object, which `modifies` does not declare'
                           % (self.label, ('attribute %r' % attr) if attr else 'the contents',
